@@ -51,6 +51,7 @@ Section Run.
   | CSetWl (w : list (rframe * list rframe))          (* whitelists_.update(w) *)
   | CReplaceWl (w : list (rframe * list rframe))      (* whitelists_ = dict(w), keys unique *)
   | CUpdate
+  | CPoke (o : nat) (p : nat)     (* the pose array a collider keeps a reference to was overwritten in place *)
   | CFill (objs : list (rframe * nat)) (w : list (rframe * list rframe))   (* fill_tree_with_colliders *)
   | CQuery (q : rcoll) (wl : list rframe)       (* aabb_overlapping_colliders(collider q, wl) *)
   | CSelf
@@ -100,6 +101,11 @@ Section Run.
         | CSetWl w => ([0], set_whitelists _ _ Nat.eqb _ _ st w)
         | CReplaceWl w => ([0], State _ _ _ _ (heap _ _ _ _ st) (tmap _ _ _ _ st) (colliders _ _ _ _ st)
                                       (atree _ _ _ _ st) (dict_of Nat.eqb w))
+        | CPoke o p =>
+          ([0], State _ _ _ _ (match nth_error (heap _ _ _ _ st) o with
+                               | Some c => set_nth (heap _ _ _ _ st) o (fst c, p)
+                               | None => heap _ _ _ _ st end)
+                              (tmap _ _ _ _ st) (colliders _ _ _ _ st) (atree _ _ _ _ st) (wls _ _ _ _ st))
         | CUpdate => match r_update st with XOk s => ([0], s) | XErr e => ([xz e], st) end
         | CFill objs w =>
           match fill_tree_with_colliders float fmin fmax 0%float f_go_left f_cost_ok rframe Nat.eqb
